@@ -218,6 +218,16 @@ def run(tier: str, seed: int) -> int:
                 R.violation(f"obligation C12/{ob['clause']} failed: {ob['detail'][:240]}", {"obligation": ob}, False)
     except OutOfSubset as e:
         R.undecided.append(f"tokenizer: out-of-subset: {e}")
+    # ... and "_parse is a function of its token list": no attribute of the parser survives into the next call
+    from .parse_family import sticky_state_analysis
+
+    for ob in sticky_state_analysis(REPO):
+        n_obl += 1
+        per["_parse"] = per.get("_parse", 0) + 1
+        if ob["ok"]:
+            n_ok += 1
+        else:
+            R.violation(f"obligation C12/{ob['clause']} failed: {ob['detail'][:240]}", {"obligation": ob}, False)
     for meth in ("tokenize", "parse", "clear_cache"):
         try:
             outs = explore(lambda ps, m=meth: method_path(I, ps, m))
@@ -256,7 +266,7 @@ def run(tier: str, seed: int) -> int:
         "obligations": n_obl,
         "discharged": n_ok,
         "checker_cmd": f"/verif/bin/check C12 --tier {tier}",
-        "trusted_base": ["pyvc symbolic executor", "_parse is a function of its token list and consumes it (C10 sticky-state analysis, C03/C10 enumeration)", "Tokenizer.tokenize is a function of the text and returns a list created by the call (obligations Tokenizer/stateless/*, shared with C11); its segmentation is proved in C11",
+        "trusted_base": ["pyvc symbolic executor", "_parse is a function of its token list and consumes it (sticky-state analysis: an obligation here too; C03/C10 enumeration)", "Tokenizer.tokenize is a function of the text and returns a list created by the call (obligations Tokenizer/stateless/*, shared with C11); its segmentation is proved in C11",
                          "induction over the call history (meta-argument; its step is the invariant-preservation obligations)",
                          "scope: Token objects and cached tree objects are shared with callers; mutating those objects is outside the property's history alphabet"],
         "obligations_per_method": per,
